@@ -100,7 +100,7 @@ def run(cases):
     return out
 
 
-def run_full(cases):
+def run_full(cases, model_bin=None):
     """end-to-end correspondence: the whole model (front end, middle, back end) against the library.
     cases as in run(); returns list of dicts {impl, model}"""
     n = len(cases)
@@ -123,7 +123,7 @@ def run_full(cases):
         lib_lines.append("%s %s %s %s" % (i, e, st.impl_token(), hx(inp)))
         model_lines.append("%s %s %s %s %s %s" % (i, pr, mt, css0_of[st.impl_token()], hx(inp), env))
     lib = common.run_impl("lib", lib_lines)
-    mod = common.run_model("full", model_lines, timeout=1800)
+    mod = common.run_model("full", model_lines, timeout=1800, binary=model_bin)
     return [{"impl": lib.get(i, "noanswer"), "model": mod.get(i, "noanswer")} for i in ids]
 
 
